@@ -121,25 +121,26 @@ func runC02(c *Ctx) {
 		runErrDisc(c, p, []*ssa.Function{sq}, errDiscOpts{Rule: rule, Class: cls})
 		// sender: sendQuery then flush before anything else
 		var sqCall ssa.Instruction
-		for _, call := range core.Calls(r.Sender) {
+		sender := bodyOf(r.Sender)
+		for _, call := range core.Calls(sender) {
 			if core.StaticFn(call) == sq {
 				sqCall = call.(ssa.Instruction)
 			}
 		}
 		if sqCall == nil {
-			c.R.Bad(rule, core.FuncName(r.Sender), cfg, p.Pos(r.Sender.Pos()), "the sender does not call sendQuery")
+			c.R.Bad(rule, core.FuncName(sender), cfg, p.Pos(sender.Pos()), "the sender does not call sendQuery")
 		} else {
 			w := core.ReachAvoiding(core.PointOf(sqCall), func(x ssa.Instruction) bool {
-				if succ(r.Sender)(x) {
+				if succ(sender)(x) {
 					return true
 				}
 				cl, ok := x.(ssa.CallInstruction)
 				return ok && core.CalleeFunc(cl) != nil && core.IsMethod(core.CalleeFunc(cl), core.PkgCh, "Client", "sendInput")
 			}, func(x ssa.Instruction) bool { return core.IsCallOf(x, isClientMethod("flush")) }, nil)
 			if len(w) > 0 {
-				c.R.Bad(rule, core.FuncName(r.Sender), cfg, p.Pos(w[0].At.Pos()), "the query is not flushed before the sender waits for column info / streams input: the server never sees the query and both sides wait")
+				c.R.Bad(rule, core.FuncName(sender), cfg, p.Pos(w[0].At.Pos()), "the query is not flushed before the sender waits for column info / streams input: the server never sees the query and both sides wait")
 			} else {
-				c.R.Ok(rule, core.FuncName(r.Sender), cfg, p.Pos(sqCall.Pos()), "sendQuery -> flush -> input")
+				c.R.Ok(rule, core.FuncName(sender), cfg, p.Pos(sqCall.Pos()), "sendQuery -> flush -> input")
 			}
 		}
 	}()
@@ -246,8 +247,10 @@ func runC02(c *Ctx) {
 	func() {
 		key := core.FuncName(eb)
 		var hdr *ssa.Function
-		if len(eb.AnonFuncs) > 0 {
-			hdr = eb.AnonFuncs[0]
+		for a := range core.StaticReach(eb, 2) {
+			if len(core.FindCalls(a, func(f *types.Func) bool { return core.IsMethod(f, core.PkgProto, "ClientData", "EncodeAware") })) > 0 {
+				hdr = a
+			}
 		}
 		okHdr := false
 		if hdr != nil {
@@ -295,7 +298,10 @@ func runC02(c *Ctx) {
 		}
 		// compressed closure
 		var cl *ssa.Function
-		for _, a := range eb.AnonFuncs {
+		for a := range core.StaticReach(eb, 2) {
+			if pkgOf(a) == nil || pkgOf(a).Path() != core.PkgCh {
+				continue
+			}
 			if len(core.FindCalls(a, func(f *types.Func) bool { return core.IsMethod(f, core.PkgCompress, "Writer", "Compress") })) > 0 {
 				cl = a
 			}
